@@ -157,12 +157,13 @@ func (m *ModulusBasic) ModDiv(out, x, y *Nat) ct.Bool {
 }
 
 func (m *ModulusBasic) modInvOdd(out, x *Nat) ct.Bool {
+	xx := x.Clone() // out may alias x; the check below needs the original value
 	(*saferith.Nat)(out).ModInverse(
-		(*saferith.Nat)(x),
+		(*saferith.Nat)(xx),
 		(*saferith.Modulus)(m),
 	)
 	var shouldBeOne Nat
-	m.ModMul(&shouldBeOne, out, x)
+	m.ModMul(&shouldBeOne, out, xx)
 	return shouldBeOne.IsOne()
 }
 
